@@ -106,7 +106,7 @@ func keyedTable(cl *ast.CompositeLit, num map[string]int, what string, val func(
 	return out, nil
 }
 
-func intLit(e ast.Expr) (int, error) {
+func opIntLit(e ast.Expr) (int, error) {
 	bl, ok := e.(*ast.BasicLit)
 	if !ok || bl.Kind != token.INT {
 		return 0, fmt.Errorf("expected an integer literal")
@@ -137,7 +137,7 @@ func readOpTables(path, first string, withNames bool) (*opTables, error) {
 		}
 		ws := []int{}
 		for _, x := range c.Elts {
-			w, err := intLit(x)
+			w, err := opIntLit(x)
 			if err != nil {
 				return nil, err
 			}
@@ -319,7 +319,7 @@ func makeInstructionFacts(repo string, num map[string]int) (limits map[int]int64
 						fail("unsupported limit case")
 						return false
 					}
-					w, err := intLit(cc.List[0])
+					w, err := opIntLit(cc.List[0])
 					if err != nil {
 						fail("limit case: %v", err)
 						return false
@@ -450,7 +450,7 @@ func parseByteExpr(e ast.Expr) (byteExpr, error) {
 		if be.Op != token.SHR {
 			return byteExpr{}, fmt.Errorf("expected args[k]>>s")
 		}
-		s, err := intLit(be.Y)
+		s, err := opIntLit(be.Y)
 		if err != nil {
 			return byteExpr{}, err
 		}
@@ -461,7 +461,7 @@ func parseByteExpr(e ast.Expr) (byteExpr, error) {
 	if !ok || exprString(ix.X) != "args" {
 		return byteExpr{}, fmt.Errorf("expected args[k]")
 	}
-	k, err := intLit(ix.Index)
+	k, err := opIntLit(ix.Index)
 	if err != nil {
 		return byteExpr{}, err
 	}
@@ -509,7 +509,7 @@ func readOperandsWidths(repo string) ([]int, error) {
 			for _, c := range sw.Body.List {
 				cc := c.(*ast.CaseClause)
 				for _, l := range cc.List {
-					w, err := intLit(l)
+					w, err := opIntLit(l)
 					if err != nil {
 						ferr = err
 						return false
